@@ -397,5 +397,5 @@ func TestHITS(t *testing.T) {
 	vk.Enumerate(t, "hits-exh", len(gs), func(i int) hitsCase {
 		return hitsCase{G: graphFromMask(gs[i].n, true, gs[i].mask), Tol: vk.F(tolSet[i%len(tolSet)])}
 	}, checkHITS)
-	vk.Run(t, "hits", vk.Opts{Quick: 6000, Thorough: 140000}, drawHITS, checkHITS)
+	vk.Run(t, "hits", vk.Opts{Quick: 6000, Thorough: 100000}, drawHITS, checkHITS)
 }
